@@ -3463,7 +3463,11 @@ impl GatheringTask for StopTask {
             ServerState::Running,
             "StopTask::on_finish must observe a shutdown run-state, never Running"
         );
-        if timed_out && self.hardness {
+        // a request gets exactly one final answer: the failure of a hard stop
+        // that timed out replaces the success message below, it does not
+        // precede it
+        let gave_up = timed_out && self.hardness;
+        if gave_up {
             client.finish_failure(format!(
                 "Workers take too long to stop ({} ok, {} errors), stopping the main process to sever the link",
                 self.gatherer.ok, self.gatherer.errors
@@ -3476,10 +3480,12 @@ impl GatheringTask for StopTask {
             ServerState::Stopping,
             "StopTask::on_finish must leave the master in the Stopping state"
         );
-        client.finish_ok(format!(
-            "Successfully closed {} workers, {} errors, stopping the main process...",
-            self.gatherer.ok, self.gatherer.errors
-        ));
+        if !gave_up {
+            client.finish_ok(format!(
+                "Successfully closed {} workers, {} errors, stopping the main process...",
+                self.gatherer.ok, self.gatherer.errors
+            ));
+        }
     }
 }
 
